@@ -221,11 +221,21 @@ def complex_cases(rng, n, ctx, classes):
         else:  # real observable with a complex number
             A, eA = real_obs[0], {'op': 'rvar', 'i': 1, 'leaf': 0}
             Bv, eB, ops = zc, {'op': 'cconst', 're': rat(zc.real), 'im': rat(zc.imag), 'py': zc}, real_obs[:1]
+        tiny = i % 20 == 10                       # (lk = 'cc', op = 'mul' there)
+        if tiny:
+            # a real observable promoted to a complex one (imaginary part the plain number 0.0) times a complex observable whose imaginary part
+            # is small in absolute terms (8e-11) - small is not zero
+            real_obs[3] = (real_obs[3] + (0.0 if abs(real_obs[3].value) > 0.1 else 1.0))
+            real_obs[3] = real_obs[3] * (8e-11 / abs(float(real_obs[3].value)))           # below the 1e-10 at which the library's is_zero() gives up
+            A, eA = real_obs[0] + 0j, {'op': 'rvar', 'i': 1, 'leaf': 0}
+            Bv, eB, ops = pe.CObs(real_obs[2], real_obs[3]), {'op': 'cvar', 're': 2, 'im': 3, 'leaf': 1}, [real_obs[0], real_obs[2], real_obs[3]]
         leaves = [A, Bv]
         op = ['add', 'sub', 'mul', 'div'][(i // 5) % 4]
         # the operand centred at zero is the right-hand one in the first round of 60, the left-hand one in the next, and so on
         zero_on = i % 3
         pos = str(rng.choice(['left', 'right'])) if zero_on == 0 else ['right', 'left'][((zero_on == 2) + (i // 60)) % 2]
+        if tiny:
+            pos = 'left'
         e = {'op': op, 'a': [eA, eB] if pos == 'left' else [eB, eA]}
         if rng.random() < 0.25 and lk != 'rcnum':
             e = {'op': str(rng.choice(['neg', 'conj'])), 'a': [e]}
